@@ -401,7 +401,8 @@ UnfarmAndWithdraw(s, a, o) ==
 (*     lp     [pair id -> last price after the batch]                                                           *)
 (*     pnet   [pool id -> [q, b]]  net coins a pool reserve received from the pair escrow by matching            *)
 (*     dust   [pair id -> quote coins sent to the dust collector]                                               *)
-(*     out    [request key -> outcome]                                                                           *)
+(*     out    [request key -> outcome]    status, accepted coins, minted shares / withdrawn coins                 *)
+(*     dis    [pool id -> disabled after the batch]   (amm IsDepleted / last share withdrawn)                    *)
 OKey(o) == <<o.pair, o.id>>
 RKey(r) == <<r.kind, r.pool, r.id>>
 NoFill == [paid |-> 0, recv |-> 0, m |-> 0]
